@@ -295,6 +295,7 @@ def gen_misc(rng):
 
 def gen_case(seed, cfg):
     rng = random.Random(seed)
+    no_soc = False
     src = rng.choice(cfg.get('sources', ['hist', 'hist', 'peer', 'peer', 'part', 'misc']))
     if src == 'hist':
         from machines import hist
@@ -302,6 +303,7 @@ def gen_case(seed, cfg):
         ops = hist.canon_ops(hc['decl'])
         pool = hc['decl']['pool']
         cone = hc['decl']['cone']
+        no_soc = hc['decl']['family'] in ('front-lp', 'front-socp')      # lp.Model / socp.Model have no soc_solve
     elif src == 'peer':
         from machines import peer
         prog = peer.gen_program(random.Random(subseed(seed, 'p')), {})
@@ -339,6 +341,8 @@ def gen_case(seed, cfg):
     reps = []
     for _ in range(rng.randint(3, 8)):
         k = rng.choice(['primal', 'dual', 'solve', 'solve', 'soc_solve', 'fault', 'clock', 'export', 'dualq'])
+        if k == 'soc_solve' and no_soc:
+            k = 'solve'
         if k == 'primal':
             reps.append({'op': 'formulate', 'm': 'm', 'primal': True})
         elif k == 'dual':
